@@ -1,5 +1,6 @@
 import ArgMapper.Props.C01
 import ArgMapper.Model.Redefine
+import ArgMapper.Proofs.RedefineInputs
 /-!
 # C08 — Redefine yields a function over exactly the missing, permitted inputs (model level)
 
@@ -27,33 +28,46 @@ theorem inputs_filtered_fresh (e : TypeEnv) (b : Builder) (funcs : Nat → Optio
     ∀ l ∈ ls, passes e fin l.ty = true ∧
       ∃ v, v ∉ (callGraph {} e b funcs target true fin).inputs ∧ (v.isValue = true ∨ v.isArg = true) ∧
         l = { v.label with sub := "" } := by
-  sorry
+  intro l hl
+  rw [RedefineInputs.redefine_ok c _ target fout fuel s0 ls h] at hl
+  obtain ⟨v, hv, hnot, hkind, hlab⟩ := RedefineInputs.mem_declaredInputs _ _ l hl
+  have hadj : c.g.hasEdge v .root = true :=
+    RedefineInputs.reach_inputSet c hskip true fuel [] _ s0 (by intro u hu; rw [hin] at hu; cases hu) v hv
+  rw [hg] at hadj
+  have hty : l.ty = v.ty := by
+    rw [hlab]
+    rcases hkind with hk | hk <;> cases v <;> first | rfl | cases hk
+  refine ⟨?_, v, hnot, hkind, hlab⟩
+  rcases RedefineInputs.callGraph_rootAdj {} e b funcs target fin v hkind hadj with hmem | hp
+  · exact absurd hmem hnot
+  · rw [hty]
+    exact hp
 
 /-- the freshness half, stated on vertices: a declared input comes from a used input vertex that is
 not among the supplied ones -/
 theorem declared_not_supplied (inputSet provided : List Vtx) (l : Label) (h : l ∈ declaredInputs inputSet provided) :
-    ∃ v ∈ inputSet, v ∉ provided ∧ (v.isValue = true ∨ v.isArg = true) ∧ l = { v.label with sub := "" } := by
-  sorry
+    ∃ v ∈ inputSet, v ∉ provided ∧ (v.isValue = true ∨ v.isArg = true) ∧ l = { v.label with sub := "" } :=
+  RedefineInputs.mem_declaredInputs inputSet provided l h
 
 /-- **C08_output_filter** — Redefine fails exactly with the output-filter error iff some output of the
 function is rejected by the output filter (checked before anything else) -/
 theorem output_filter (c : Ctx) (cgr : CallGraphResult) (target : FuncDesc) (fout : Option Filter)
     (fuel : Nat) (s0 : CallSt) :
-    redefine c cgr target fout fuel s0 = .outputFiltered ↔ outputsPass c.env target fout = false := by
-  sorry
+    redefine c cgr target fout fuel s0 = .outputFiltered ↔ outputsPass c.env target fout = false :=
+  RedefineInputs.redefine_outputFiltered c cgr target fout fuel s0
 
 /-- what `reachTarget` records in redefine mode (after the repair of F9a) is adjacent to the root -/
 theorem inputSet_root_adjacent (c : Ctx) (hskip : c.skipRecordsInput = false) (fuel : Nat)
     (reaching : List Vtx) (t : Vtx) (s : CallSt) (hs : ∀ v ∈ s.inputSet, c.g.hasEdge v .root = true) :
-    ∀ v ∈ (reach c true fuel reaching t s).2.inputSet, c.g.hasEdge v .root = true := by
-  sorry
+    ∀ v ∈ (reach c true fuel reaching t s).2.inputSet, c.g.hasEdge v .root = true :=
+  RedefineInputs.reach_inputSet c hskip true fuel reaching t s hs
 
 /-- in the Redefine graph a value / typed-argument vertex adjacent to the root is either a supplied
 value or passes the input filter -/
 theorem root_adjacent_supplied_or_permitted (e : TypeEnv) (b : Builder) (funcs : Nat → Option FuncDesc)
     (target : FuncDesc) (fin : Option Filter) (v : Vtx) (hv : v.isValue = true ∨ v.isArg = true)
     (h : (callGraph {} e b funcs target true fin).cg.g.hasEdge v .root = true) :
-    v ∈ (callGraph {} e b funcs target true fin).inputs ∨ passes e fin v.ty = true := by
-  sorry
+    v ∈ (callGraph {} e b funcs target true fin).inputs ∨ passes e fin v.ty = true :=
+  RedefineInputs.callGraph_rootAdj {} e b funcs target fin v hv h
 
 end ArgMapper.C08
